@@ -55,7 +55,8 @@ def run_cases(tag, preamble, case_type, cases, checker, shard=400, timeout=900):
                 continue
             idxs = [int(x) for x in re.findall(r"\d+", m.group(2))]
             bad += [k + i for i in idxs]
-    for _, path in files:
+    keep = os.environ.get("VERIF_KEEP_CASES")
+    for _, path in ([] if keep else files):
         for ext in (".v", ".vo", ".glob", ".vok", ".vos"):
             try:
                 os.remove(path[:-2] + ext)
